@@ -6,6 +6,7 @@ import (
 	"go/token"
 	"go/types"
 	"regexp"
+	"strings"
 
 	"golang.org/x/tools/go/ssa"
 
@@ -352,6 +353,7 @@ func C06(c *core.Ctx) {
 	}
 	c.Check("R4", "timer-started", a.newRx.Pos(), started, "every new receive transaction starts its retention timer")
 	checkTimerCallback(c, "R4", a.rxStart, "RxTransaction", 1, "timeout")
+	losslessPost(c, "R4", p.SSAFn(p.Method(pkgPfcp, "PfcpServer", "NotifyTransTimeout")), p.Field(pkgPfcp, "PfcpServer", "trToCh"), "expiry of a transaction timer")
 	// retention expression
 	timeoutF := p.Field(pkgPfcp, "RxTransaction", "timeout")
 	for _, st := range storesToField(a.newRx, timeoutF) {
@@ -514,6 +516,29 @@ func checkTimeoutArm(c *core.Ctx, rule string, a *txAnchors, typ string, table *
 		}
 	}
 	c.Check(rule, "timeout-arm:"+typ, ci.Pos(), ok, typ+".handleTimeout runs for the table entry found under the timeout event's transaction id")
+	// ... and only for an event of this transaction type: RX and TX ids share one format (peer-sequence), so a
+	// stale TX event must not be looked up in the receive table (it would release a retained response early)
+	want := int64(0) // TX
+	if typ == "RxTransaction" {
+		want = 1
+	}
+	typed := false
+	for _, f := range core.FactsAt(ci.Block()) {
+		cmp, isCmp := f.V.(*ssa.BinOp)
+		if !isCmp || (cmp.Op != token.EQL && cmp.Op != token.NEQ) {
+			continue
+		}
+		k, isK := core.ConstInt(cmp.Y)
+		_, kp := core.FieldPath(cmp.X)
+		if !isK || len(kp) == 0 || kp[len(kp)-1] != "TrType" {
+			continue
+		}
+		eq := (cmp.Op == token.EQL) == f.True // the fact says TrType == k (true) or TrType != k (false)
+		if (eq && k == want) || (!eq && k == 1-want) {
+			typed = true
+		}
+	}
+	c.Check(rule, "timeout-arm-typed:"+typ, ci.Pos(), typed, typ+".handleTimeout runs only for timeout events of its own transaction type")
 	// other handleTimeout callers: none
 	for _, fn := range p.OwnFuncs() {
 		for _, x := range core.Calls(fn, ht) {
@@ -585,6 +610,7 @@ func C09(c *core.Ctx) {
 		}
 	}
 	c.Floor("R1", nNew, 1, "NewTxTransaction call sites")
+	sendReqAlwaysBooks(c, "R1")
 	// a number that was handed out is consumed on every path, also when the first transmission fails:
 	// the transaction stays outstanding (registered, timer armed) and the next request must not reuse it
 	for _, ci := range core.Calls(a.sendReqTo, newTxObj) {
@@ -629,6 +655,33 @@ func C09(c *core.Ctx) {
 	if cond == nil {
 		c.Undecided("R2", "retry-condition", a.txTimeout.Pos(), "handleTimeout does not start with a comparison")
 		return
+	}
+	// "the configured number of times": maxRetrans / retransTimeout of a transmit transaction are the
+	// configuration's values, written only by the constructor, and the configuration itself is not rewritten
+	// after load (C20 R3) - a default patched in for 0 would turn "never retransmit" into three retries
+	for _, pair := range [][2]string{{"maxRetrans", "MaxRetrans"}, {"retransTimeout", "RetransTimeout"}} {
+		f := p.Field(pkgPfcp, "TxTransaction", pair[0])
+		n := 0
+		for _, fn := range p.OwnFuncs() {
+			for _, st := range storesToField(fn, f) {
+				n++
+				_, path := core.FieldPath(st.Val)
+				c.Check("R2", "configured-"+pair[0]+":"+core.FnName(fn), st.Pos(), fn == a.newTx && len(path) >= 1 && path[len(path)-1] == pair[1] && strings.Contains(strings.Join(path, "."), "cfg"),
+					"TxTransaction."+pair[0]+" is the configuration's "+pair[1]+" ("+strings.Join(path, ".")+"), set by the constructor only")
+			}
+		}
+		c.Floor("R2", n, 1, "stores to TxTransaction."+pair[0])
+	}
+	if f20, ok := Registry["C20"]; ok {
+		sub, _ := core.NewCtx(c.P, "C20", c.Tier, c.Seed, c.OutDir, "")
+		f20(sub)
+		bad := ""
+		for _, fd := range sub.Findings {
+			if strings.Contains(fd.Key, "config-store:") && (strings.HasSuffix(fd.Key, ":MaxRetrans") || strings.HasSuffix(fd.Key, ":RetransTimeout")) {
+				bad = fd.Key
+			}
+		}
+		c.Check("R2", "configuration-not-rewritten", token.NoPos, bad == "", "nothing writes Pfcp.MaxRetrans / Pfcp.RetransTimeout after the configuration was loaded (C20 R3) "+bad)
 	}
 	// E-ORD: evaluate the condition for count<max, count==max, count>max
 	var cntLeft bool
@@ -763,6 +816,7 @@ func C09(c *core.Ctx) {
 	}
 	checkSendCaches(c, "R2", a.txSend, msgBufTx, raddrTx, a)
 	checkTimerCallback(c, "R2", a.txStart, "TxTransaction", 0, "retransTimeout")
+	losslessPost(c, "R2", p.SSAFn(p.Method(pkgPfcp, "PfcpServer", "NotifyTransTimeout")), p.Field(pkgPfcp, "PfcpServer", "trToCh"), "expiry of a retransmission timer")
 	checkTimeoutArm(c, "R2", a, "TxTransaction", a.txTrans)
 	// the first timer is started by send before the write
 	startedInSend := false
@@ -854,4 +908,48 @@ func C09(c *core.Ctx) {
 			c.Check("R4", "send-caller:"+core.FnName(fn), ci.Pos(), fn == a.sendReqTo, "requests are sent only through sendReqTo")
 		}
 	}
+}
+
+// sendReqAlwaysBooks: sendReqTo turns every request it is given into a booked transmit transaction: the
+// only exit before the transaction is entered in txTrans is the `not a request` guard. (A report whose
+// numbers were already taken must go out or stay booked for retransmission; an additional early exit
+// silently loses it.)
+func sendReqAlwaysBooks(c *core.Ctx, rule string) {
+	a := getTxAnchors(c, rule)
+	if !a.ok {
+		return
+	}
+	fn := a.sendReqTo
+	var books []ssa.Instruction
+	core.Instrs(fn, func(in ssa.Instruction) {
+		if mu, ok := in.(*ssa.MapUpdate); ok {
+			if _, f, ok := core.LoadedField(mu.Map); ok && f == a.txTrans {
+				books = append(books, mu)
+			}
+		}
+	})
+	var isReq []ssa.Value
+	for _, ci := range core.CallsMatching(fn, func(f *types.Func) bool { return core.IsPkgFunc(f, pkgPfcp, "isRequest") }) {
+		if v := ci.Value(); v != nil {
+			isReq = append(isReq, v)
+		}
+	}
+	r := returnAvoiding(fn.Blocks[0], func(b *ssa.BasicBlock) bool {
+		for _, m := range books {
+			if blockHas(b, m) {
+				return true
+			}
+		}
+		for _, v := range isReq {
+			if core.KnownAt(b, v, false) {
+				return true
+			}
+		}
+		return false
+	})
+	pos := fn.Pos()
+	if r != nil {
+		pos = r.Pos()
+	}
+	c.Check(rule, "request-always-booked", pos, r == nil && len(books) > 0, "every request handed to sendReqTo is entered in the transmit table (the only earlier exit is the not-a-request guard)")
 }
